@@ -247,6 +247,142 @@ func runC05(c *Ctx, r *Report) {
 	indexKeys(c, r, "R-C05.8")
 	r.Doc("R-C05.10", "every store to the log's index, heads, predecessor index and clock happens under the log's write lock (two appends under a shared lock overwrite each other's head and lose an entry from the views)")
 	importRules(c, r, "C13", []string{"R-C13.1"}, "R-C05.10")
+	r.Doc("R-C05.12", "a merged entry is stored under the key by which it was found absent: Join files a candidate under its index key, or under its own hash after having refused every candidate whose hash differs from its key (an entry filed under one key that claims the hash of an entry the log holds would otherwise replace that entry)")
+	{
+		join := p.FuncI("", "IPFSLog", "Join")
+		entriesF := p.Field("", "IPFSLog", "Entries")
+		// key variables: range values of loops over <x>.Keys() (or over a local that holds one), locals
+		// copied from one, and parameters of literals and declared helpers called with one
+		keyVars := map[types.Object]bool{}
+		scope := map[*Fn]bool{}
+		var work []*Fn
+		addFn := func(f *Fn) {
+			if f != nil && f.Body != nil && !scope[f] {
+				scope[f] = true
+				work = append(work, f)
+			}
+		}
+		for _, fn := range p.AllViews(join) {
+			addFn(fn)
+		}
+		isKeysCall := func(fn *Fn, e ast.Expr) bool {
+			e = ast.Unparen(e)
+			if id, ok := e.(*ast.Ident); ok {
+				if o := p.ObjOf(fn, id); o != nil {
+					if d := p.SoleDef(p.EnclosingFn(id), o); d != nil {
+						e = ast.Unparen(d)
+					}
+				}
+			}
+			call, ok := e.(*ast.CallExpr)
+			if !ok {
+				return false
+			}
+			se, ok := ast.Unparen(call.Fun).(*ast.SelectorExpr)
+			return ok && se.Sel.Name == "Keys"
+		}
+		isKey := func(fn *Fn, e ast.Expr) bool {
+			id, ok := ast.Unparen(e).(*ast.Ident)
+			return ok && keyVars[p.ObjOf(fn, id)]
+		}
+		for changed := true; changed; {
+			changed = false
+			mark := func(o types.Object) {
+				if o != nil && !keyVars[o] {
+					keyVars[o] = true
+					changed = true
+				}
+			}
+			for i := 0; i < len(work); i++ {
+				fn := work[i]
+				ast.Inspect(fn.Body, func(n ast.Node) bool {
+					switch x := n.(type) {
+					case *ast.RangeStmt:
+						if id, ok := x.Value.(*ast.Ident); ok && isKeysCall(fn, x.X) {
+							mark(p.ObjOf(fn, id))
+						}
+					case *ast.AssignStmt:
+						if len(x.Lhs) == len(x.Rhs) {
+							for j, rh := range x.Rhs {
+								if id, ok := x.Lhs[j].(*ast.Ident); ok && isKey(fn, rh) {
+									if o := p.ObjOf(fn, id); o != nil && p.SoleDef(p.EnclosingFn(id), o) != nil {
+										mark(o)
+									}
+								}
+							}
+						}
+					case *ast.CallExpr:
+						var callee *Fn
+						if lit, ok := ast.Unparen(x.Fun).(*ast.FuncLit); ok {
+							callee = p.ByLit[lit]
+						} else if f := p.Callee(fn, x); f != nil {
+							callee = p.ByObj[f]
+						}
+						if callee == nil {
+							return true
+						}
+						for j, a := range x.Args {
+							if isKey(fn, a) {
+								if po := paramObjAny(callee, j); po != nil {
+									mark(po)
+									addFn(callee)
+								}
+							}
+						}
+					}
+					return true
+				})
+			}
+		}
+		// is there a comparison of an entry's own hash with its key that refuses on mismatch?
+		refuses := false
+		for fn := range scope {
+			ast.Inspect(fn.Body, func(n ast.Node) bool {
+				be, ok := n.(*ast.BinaryExpr)
+				if !ok || (be.Op != token.NEQ && be.Op != token.EQL) {
+					return true
+				}
+				for _, pair := range [][2]ast.Expr{{be.X, be.Y}, {be.Y, be.X}} {
+					if !isKey(fn, pair[1]) {
+						continue
+					}
+					ast.Inspect(pair[0], func(m ast.Node) bool {
+						if se, ok := m.(*ast.SelectorExpr); ok && se.Sel.Name == "GetHash" {
+							refuses = true
+						}
+						return true
+					})
+				}
+				return true
+			})
+		}
+		nset := 0
+		for _, fn := range p.AllViews(join) {
+			walkNoLit(fn.Body, func(n ast.Node) bool {
+				call, ok := n.(*ast.CallExpr)
+				if !ok || len(call.Args) != 2 {
+					return true
+				}
+				se, ok := ast.Unparen(call.Fun).(*ast.SelectorExpr)
+				if !ok || se.Sel.Name != "Set" {
+					return true
+				}
+				if v, _ := p.FieldSel(fn, se.X); v != entriesF {
+					return true
+				}
+				nset++
+				byKey := false
+				if id, ok := ast.Unparen(call.Args[0]).(*ast.Ident); ok && keyVars[p.ObjOf(fn, id)] {
+					byKey = true
+				}
+				r.Check(byKey || refuses, "R-C05.12", r.Key("R-C05.12", fn, "stored-under-checked-key", ""), call.Pos(),
+					"a candidate is stored under the key it was found absent by (or its hash was compared with that key and a mismatch refuses the merge)",
+					"Join stores a candidate under `"+types.ExprString(call.Args[0])+"` although it was found to be new by its key in the other log's index, and nothing refuses a candidate whose own hash differs from that key: an entry that claims the hash of an entry the log holds replaces it — the log returns other content under that hash from then on")
+				return true
+			})
+		}
+		r.Floor("R-C05.12", "insertions into the entry index in Join", nset, 1)
+	}
 	r.Doc("R-C05.11", "Entry.Copy builds the copy field by field (or replaces every reference-typed field of a struct copy on every path): the copy shares no map or clock with the original")
 	entryCopyFieldwise(c, r, "R-C05.11")
 	r.Doc("R-C05.9", "a copied entry shares no mutable map or clock object with its original: Copy stores a freshly made map and a fresh clock (the link-encrypting codec and the signer write into the copy's additional data)")
